@@ -33,19 +33,42 @@ def _endpoint(tag, binding, location, index=None, default=None, response_locatio
     if index is not None:
         a += ' index="%s"' % index
     if default is not None:
-        a += ' isDefault="%s"' % ("true" if default else "false")
+        a += ' isDefault="%s"' % _b(default)
     if response_location:
         a += ' ResponseLocation="%s"' % esc(response_location)
     return "<md:%s%s/>" % (tag, a)
 
 
+_BOOLS = {"words": ("true", "false"), "digits": ("1", "0"), "padded": (" true", "false ")}
+_style = ["words"]
+
+
+def _b(v):
+    """lexical form of an xs:boolean in the style of the entity being written"""
+    t, f = _BOOLS[_style[0]]
+    return t if v else f
+
+
 def entity(d):
+    """d.get("lexical"): {"bool": words|digits|padded, "ecat_type": None|"xs:string"|"xs:anyURI"} - other legal ways of writing the same
+    declarations"""
+    lex = d.get("lexical") or {}
+    _style[0] = lex.get("bool", "words")
+    try:
+        return _entity(d, lex)
+    finally:
+        _style[0] = "words"
+
+
+def _entity(d, lex):
     parts = []
     vu = ' validUntil="%s"' % d["valid_until"] if d.get("valid_until") else ""
     parts.append('<md:EntityDescriptor xmlns:md="%s" xmlns:ds="%s" xmlns:saml="%s" xmlns:mdattr="%s" entityID="%s"%s>' % (
         MD, DS, SAML, MDATTR, esc(d["eid"]), vu))
     if d.get("entity_categories"):
-        vals = "".join("<saml:AttributeValue>%s</saml:AttributeValue>" % esc(c) for c in d["entity_categories"])
+        typ = ' xmlns:xs="http://www.w3.org/2001/XMLSchema" xmlns:xsi="http://www.w3.org/2001/XMLSchema-instance" xsi:type="%s"' % lex["ecat_type"] \
+            if lex.get("ecat_type") else ""
+        vals = "".join("<saml:AttributeValue%s>%s</saml:AttributeValue>" % (typ, esc(c)) for c in d["entity_categories"])
         parts.append('<md:Extensions><mdattr:EntityAttributes><saml:Attribute Name="http://macedir.org/entity-category" '
                      'NameFormat="urn:oasis:names:tc:SAML:2.0:attrname-format:uri">%s</saml:Attribute></mdattr:EntityAttributes></md:Extensions>' % vals)
     idp = d.get("idp")
@@ -61,9 +84,9 @@ def entity(d):
     if sp:
         attrs = ""
         if sp.get("authn_requests_signed") is not None:
-            attrs += ' AuthnRequestsSigned="%s"' % ("true" if sp["authn_requests_signed"] else "false")
+            attrs += ' AuthnRequestsSigned="%s"' % _b(sp["authn_requests_signed"])
         if sp.get("want_assertions_signed") is not None:
-            attrs += ' WantAssertionsSigned="%s"' % ("true" if sp["want_assertions_signed"] else "false")
+            attrs += ' WantAssertionsSigned="%s"' % _b(sp["want_assertions_signed"])
         parts.append('<md:SPSSODescriptor protocolSupportEnumeration="%s"%s>' % (PROTO, attrs))
         parts.extend(key_descriptor(u, k) for u, k in sp.get("keys", []))
         parts.extend(_endpoint("SingleLogoutService", b, l) for b, l in sp.get("slo", []))
@@ -78,7 +101,7 @@ def entity(d):
                 if friendly:
                     a += ' FriendlyName="%s"' % esc(friendly)
                 if required is not None:
-                    a += ' isRequired="%s"' % ("true" if required else "false")
+                    a += ' isRequired="%s"' % _b(required)
                 if values:
                     parts.append("<md:RequestedAttribute%s>%s</md:RequestedAttribute>" % (
                         a, "".join("<saml:AttributeValue>%s</saml:AttributeValue>" % esc(v) for v in values)))
